@@ -40,7 +40,8 @@ Inductive sinstr :=
 | SCond (o : opcode) (uses : list sarg) (l : label)
 | SJmp (l : label)
 | SLabel (l : label)
-| SRet (uses : list sarg).
+| SRet (uses : list sarg)
+| SJmpTab (o : opcode) (uses : list sarg) (ls : list label).   (* annotated indirect jump: the instruction picks one of ls *)
 
 Inductive tinstr :=
 | TOp (o : opcode) (uses defs : list targ)        (* defs beyond the source instruction's defs are clobbers *)
@@ -51,7 +52,8 @@ Inductive tinstr :=
 | TCond (o : opcode) (uses : list targ) (l : label)
 | TJmp (l : label)
 | TLabel (l : label)
-| TRet (uses : list targ).
+| TRet (uses : list targ)
+| TJmpTab (o : opcode) (uses : list targ) (ls : list label).
 
 Definition sprog := list sinstr.
 Definition tprog := list tinstr.
@@ -111,6 +113,9 @@ Fixpoint find_tlabel (l : label) (p : tprog) (i : nat) : option nat :=
   | _ :: p' => find_tlabel l p' (S i)
   end.
 
+(* target of an annotated indirect jump: the instruction's result, reduced modulo the table length, selects the entry *)
+Definition pick (ls : list label) (z : Z) : label := nth (Z.to_nat (z mod Z.max 1 (Z.of_nat (length ls)))) ls 0%N.
+
 (* ------------------------------------------------------------------ semantics, for ANY instruction semantics *)
 Section Sem.
   Variable world : Type.
@@ -157,6 +162,9 @@ Section Sem.
     | Some (SJmp l) => match find_slabel l p 0 with Some pc' => Next (pc', V, W) | None => Stuck end
     | Some (SLabel _) => Next (pc + 1, V, W)%nat
     | Some (SRet us) => Halt (sread V us) W
+    | Some (SJmpTab o us ls) =>
+        let '(res, W') := sem o (sread V us) W in
+        match find_slabel (pick ls (hd 0 res)) p 0 with Some pc' => Next (pc', V, W') | None => Stuck end
     end.
 
   Definition tstep (p : tprog) (c : tconf) : outcome tconf :=
@@ -177,6 +185,9 @@ Section Sem.
     | Some (TJmp l) => match find_tlabel l p 0 with Some pc' => Next (pc', T, W) | None => Stuck end
     | Some (TLabel _) => Next (pc + 1, T, W)%nat
     | Some (TRet us) => Halt (tread T us) W
+    | Some (TJmpTab o us ls) =>
+        let '(res, W') := sem o (tread T us) W in
+        match find_tlabel (pick ls (hd 0 res)) p 0 with Some pc' => Next (pc', T, W') | None => Stuck end
     end.
 
   Fixpoint srun (n : nat) (p : sprog) (c : sconf) : outcome sconf :=
@@ -336,6 +347,16 @@ Definition check_pc (sp : sprog) (tp : tprog) (ann : annot) (t : nat) : bool :=
         | Some (SRet su) => check_uses E su tu
         | _ => false
         end
+    | Some (TJmpTab o tu tls) =>
+        match nth_error sp s with
+        | Some (SJmpTab o' su sls) =>
+            N.eqb o o' && check_uses E su tu && Nat.eqb (length tls) (length sls) && negb (Nat.eqb (length tls) 0) &&
+            forallb (fun ll => match find_tlabel (fst ll) tp 0, find_slabel (snd ll) sp 0 with
+                               | Some t', Some s' => edge sp ann s' E t'
+                               | _, _ => false
+                               end) (combine tls sls)
+        | _ => false
+        end
     end
   end.
 
@@ -438,6 +459,16 @@ Fixpoint sweep (sp : sprog) (tp0 : tprog) (hs0 : hints) (tp : tprog) (hs : hints
                     end in
           sweep sp tp0 hs0 tp' hs' (Some (S s, E)) jold (jin_meet jnew l (arrive sp (label_hint tp0 hs0 l) tk)) (a :: acc)
       | TRet _ => sweep sp tp0 hs0 tp' hs' None jold jnew (a :: acc)
+      | TJmpTab o tu tls =>
+          let jn := match nth_error sp s with
+                    | Some (SJmpTab _ _ sls) =>
+                        fold_left (fun j ll => match find_slabel (snd ll) sp 0 with
+                                               | Some s' => jin_meet j (fst ll) (arrive sp (label_hint tp0 hs0 (fst ll)) (Some (s', E)))
+                                               | None => j
+                                               end) (combine tls sls) jnew
+                    | _ => jnew
+                    end in
+          sweep sp tp0 hs0 tp' hs' None jold jn (a :: acc)
       end
     end
   end.
